@@ -159,8 +159,13 @@ impl BlockWriter {
             }
 
             if size == 0 {
-                // The decoder does not consume its input anymore (end of the compressed stream
-                // or content length already reached), the remaining data can never be written
+                if self.content_length_left == Some(0) {
+                    // The whole content has already been written, what remains is the end of the
+                    // compressed stream (checksum), which is not read anymore
+                    break;
+                }
+                // The decoder does not consume its input anymore (end of the compressed stream),
+                // the remaining data can never be written
                 if stalled {
                     return Err(FluteError::new(
                         "Decompression is stalled, remaining data cannot be decoded",
